@@ -19,7 +19,9 @@ from .shared import install_find_hooks
 
 
 def adv_functions(ctx) -> List[FuncInfo]:
-    return [f for f in ctx.prog.all_functions() if f.module.name.startswith('dznpy.adv_shell')]
+    from .shared import expanded_everywhere
+    skip = expanded_everywhere(ctx)
+    return [f for f in ctx.prog.all_functions() if f.module.name.startswith('dznpy.adv_shell') and f.fq not in skip]
 
 
 def check(ctx):
@@ -255,6 +257,18 @@ def _same_interface(ctx, abs_, ex, fn: FuncInfo, call: ast.Call, owner: ast.expr
         if isinstance(e, (ast.ListComp, ast.GeneratorExp, ast.DictComp)) and len(e.generators) == 1:
             e = e.generators[0].iter
             continue
+        if isinstance(e, ast.Attribute):
+            # a property of a package class that is a single `return <expression>`: the expression, said of this object
+            bt = strip_opt(abs_.type_at(cur_fn, e.value, anchor))
+            pc = prog.classes.get(bt[1]) if bt[0] == 'cls' else None
+            pm = prog.lookup_method(pc, e.attr) if pc is not None else None
+            if pm is not None and pm.is_property:
+                pbody = [st for st in pm.node.body if not (isinstance(st, ast.Expr) and isinstance(st.value, ast.Constant))]
+                if len(pbody) == 1 and isinstance(pbody[0], ast.Return) and pbody[0].value is not None:
+                    e = _substitute(pbody[0].value, {'self': e.value})
+                    ast.fix_missing_locations(e)
+                    continue
+                return None
         if txt.endswith('.elements'):
             e = e.value
             continue
